@@ -31,10 +31,18 @@ Inductive piece :=
 | W (text : str) (t : token)      (* a word-like token: needs a delimiter after it *)
 | Sp                              (* one blank *)
 | Cm                              (* a comma *)
-| St (text : str) (v : str).      (* a string literal, quotes included, with its value *)
+| St (text : str) (v : str)       (* a string literal, quotes included, with its value *)
+| Bl (bs : str)                   (* a run of blanks and tabs, possibly empty *)
+| Col                             (* a colon *)
+| Nl (crlf : bool)                (* a line end: LF or CR LF *)
+| Cmt (body : str).               (* a comment: ';' and everything up to the line feed (a CR before it included) *)
 
+Definition nl_text (crlf : bool) : str := if crlf then [13; 10] else [10].
 Definition piece_text (p : piece) : str :=
-  match p with W x _ => x | Sp => [32] | Cm => [44] | St x _ => x end.
+  match p with
+  | W x _ => x | Sp => [32] | Cm => [44] | St x _ => x
+  | Bl bs => bs | Col => [58] | Nl crlf => nl_text crlf | Cmt body => 59 :: body
+  end.
 Definition text_of (ps : list piece) : str := flat_map piece_text ps.
 
 Fixpoint toks_of (pos : Z) (ps : list piece) : list tok :=
@@ -44,6 +52,10 @@ Fixpoint toks_of (pos : Z) (ps : list piece) : list tok :=
   | Sp :: r => toks_of (pos + 1) r
   | Cm :: r => (TComma, (pos, pos + 1)) :: toks_of (pos + 1) r
   | St x v :: r => (TString v, (pos, pos + byte_len x)) :: toks_of (pos + byte_len x) r
+  | Bl bs :: r => toks_of (pos + byte_len bs) r
+  | Col :: r => (TColon, (pos, pos + 1)) :: toks_of (pos + 1) r
+  | Nl crlf :: r => (TNewLine, (pos, pos + byte_len (nl_text crlf))) :: toks_of (pos + byte_len (nl_text crlf)) r
+  | Cmt body :: r => (TComment, (pos, pos + (1 + byte_len body))) :: toks_of (pos + (1 + byte_len body)) r
   end.
 
 (* a word text lexes to its token whenever a delimiter (or the end) follows *)
@@ -54,27 +66,83 @@ Definition str_ok (x v : str) : Prop :=
   exists body, x = 34 :: body /\
     forall rest, lex_step true 34 (body ++ rest) = (SOk (TString v), byte_len x, rest).
 
+(* what may follow a word: anything but another word (empty blank runs are transparent) *)
+Fixpoint delim_next (r : list piece) : Prop :=
+  match r with
+  | W _ _ :: _ => False
+  | Bl [] :: r' => delim_next r'
+  | _ => True
+  end.
+(* what may follow a comment: the line feed, or the end of the text *)
+Fixpoint eol_next (r : list piece) : Prop :=
+  match r with
+  | [] => True
+  | Nl false :: _ => True
+  | Bl [] :: r' => eol_next r'
+  | _ => False
+  end.
+
 Fixpoint pieces_ok (ps : list piece) : Prop :=
   match ps with
   | [] => True
-  | W x t :: r => word_ok x t /\ match r with W _ _ :: _ => False | _ => True end /\ pieces_ok r
+  | W x t :: r => word_ok x t /\ delim_next r /\ pieces_ok r
   | St x v :: r => str_ok x v /\ pieces_ok r
+  | Bl bs :: r => forallb is_blank bs = true /\ pieces_ok r
+  | Cmt body :: r => forallb (fun c => negb (c =? 10)) body = true /\ eol_next r /\ pieces_ok r
   | _ :: r => pieces_ok r
   end.
 
-Lemma pieces_delim r : pieces_ok r -> match r with W _ _ :: _ => False | _ => True end -> delim (text_of r).
+Lemma pieces_delim r : pieces_ok r -> delim_next r -> delim (text_of r).
 Proof.
-  destruct r as [|p r]; [trivial|]. intros Hok Hh. destruct p; cbn [text_of flat_map piece_text app delim]; try reflexivity; try contradiction.
-  cbn [pieces_ok] in Hok. destruct Hok as [[body [-> _]] _]. reflexivity.
+  induction r as [|p r IH]; [trivial|]. intros Hok Hh.
+  destruct p; cbn [text_of flat_map piece_text app delim delim_next] in *; try reflexivity; try contradiction.
+  - cbn [pieces_ok] in Hok. destruct Hok as [[body [-> _]] _]. reflexivity.
+  - cbn [pieces_ok] in Hok. destruct Hok as [Hb Hok]. destruct bs as [|b bs].
+    + cbn [app]. apply IH; assumption.
+    + cbn [app delim]. cbn [forallb] in Hb. apply andb_prop in Hb. destruct Hb as [Hb _].
+      unfold is_blank in Hb. unfold is_delim. apply orb_prop in Hb. destruct Hb as [Hb|Hb]; rewrite Hb; cbn [orb]; rewrite ?orb_true_r; reflexivity.
+  - destruct crlf; reflexivity.
+Qed.
+
+Lemma eol_stops r : pieces_ok r -> eol_next r -> stops (fun c => negb (c =? 10)) (text_of r).
+Proof.
+  induction r as [|p r IH]; [trivial|]. intros Hok Hh.
+  destruct p; cbn [eol_next] in Hh; try contradiction.
+  - destruct bs; [|contradiction]. cbn [pieces_ok] in Hok. destruct Hok as [_ Hok].
+    cbn [text_of flat_map piece_text app]. apply IH; assumption.
+  - destruct crlf; [contradiction|]. reflexivity.
 Qed.
 
 Lemma lex_step_comma fx r : lex_step fx 44 r = (SOk TComma, 1, r).
 Proof. reflexivity. Qed.
+Lemma lex_step_colon fx r : lex_step fx 58 r = (SOk TColon, 1, r).
+Proof. reflexivity. Qed.
+Lemma lex_step_lf fx r : lex_step fx 10 r = (SOk TNewLine, 1, r).
+Proof. reflexivity. Qed.
+Lemma lex_step_crlf fx r : lex_step fx 13 (10 :: r) = (SOk TNewLine, 2, r).
+Proof. reflexivity. Qed.
+Lemma lex_step_comment fx body r : forallb (fun c => negb (c =? 10)) body = true -> stops (fun c => negb (c =? 10)) r ->
+  lex_step fx 59 (body ++ r) = (SOk TComment, 1 + byte_len body, r).
+Proof.
+  intros Hb Hr. unfold lex_step. cbn [Z.eqb Pos.eqb]. rewrite span_p_exact by assumption. reflexivity.
+Qed.
+
+Lemma lex_at_blanks fx bs : forall pos r, forallb is_blank bs = true ->
+  lex_at fx pos (bs ++ r) = lex_at fx (pos + byte_len bs) r.
+Proof.
+  induction bs as [|b bs IH]; intros pos r H.
+  - cbn [app byte_len]. rewrite Z.add_0_r. reflexivity.
+  - cbn [forallb] in H. apply andb_prop in H. destruct H as [Hb Hbs].
+    cbn [app]. rewrite lex_at_cons, Hb. rewrite IH by exact Hbs. cbn [byte_len].
+    rewrite (utf8_len_ascii b).
+    + f_equal. lia.
+    + unfold is_blank in Hb. apply orb_prop in Hb. destruct Hb as [E|E]; apply Z.eqb_eq in E; lia.
+Qed.
 
 Theorem lex_pieces : forall ps pos, pieces_ok ps -> lex_at true pos (text_of ps) = LexOk (toks_of pos ps).
 Proof.
   induction ps as [|p ps IH]; intros pos Hok; [reflexivity|].
-  destruct p as [x t| | |x v]; cbn [text_of flat_map piece_text] in *; fold (text_of ps).
+  destruct p as [x t| | |x v|bs| |crlf|body]; cbn [text_of flat_map piece_text] in *; fold (text_of ps).
   - cbn [pieces_ok] in Hok. destruct Hok as [[c [w [-> [Hb Hstep]]]] [Hnext Hrest]].
     cbn [app]. rewrite lex_at_cons, Hb. rewrite (Hstep true (text_of ps)) by (apply pieces_delim; assumption).
     rewrite IH by exact Hrest. reflexivity.
@@ -84,6 +152,15 @@ Proof.
   - cbn [pieces_ok] in Hok. destruct Hok as [[body [-> Hstep]] Hrest].
     cbn [app]. rewrite lex_at_cons. change (is_blank 34) with false. cbn iota. rewrite Hstep.
     rewrite IH by exact Hrest. reflexivity.
+  - cbn [pieces_ok] in Hok. destruct Hok as [Hb Hrest]. rewrite lex_at_blanks by exact Hb. cbn [toks_of]. apply IH. exact Hrest.
+  - cbn [app]. rewrite lex_at_cons. change (is_blank 58) with false. cbn iota. rewrite lex_step_colon.
+    rewrite IH by exact Hok. reflexivity.
+  - destruct crlf; cbn [nl_text app].
+    + rewrite lex_at_cons. change (is_blank 13) with false. cbn iota. rewrite lex_step_crlf. rewrite IH by exact Hok. reflexivity.
+    + rewrite lex_at_cons. change (is_blank 10) with false. cbn iota. rewrite lex_step_lf. rewrite IH by exact Hok. reflexivity.
+  - cbn [pieces_ok] in Hok. destruct Hok as [Hb [Hn Hrest]].
+    cbn [app]. rewrite lex_at_cons. change (is_blank 59) with false. cbn iota.
+    rewrite lex_step_comment by (try apply eol_stops; assumption). rewrite IH by exact Hrest. reflexivity.
 Qed.
 
 Lemma text_of_app a b : text_of (a ++ b) = text_of a ++ text_of b.
